@@ -1,5 +1,6 @@
 SPECIFICATION TraceSpec
 CONSTANTS Sender = {"g0", "g1", "g2", "g3", "g4", "g5", "g6", "g7", "g8", "g9", "g10", "g11", "g12", "g13", "g14", "g15"}
+          Addr = {"A", "B", "C"}
           MaxFaults = 1000000
           MaxCfg = 1000000
 CONSTRAINT Hwm
